@@ -218,6 +218,7 @@ type world struct {
 	rich    sdk.AccAddress
 	rk      *poolmanager.Keeper
 	ms      pmtypes.MsgServer
+	gms     gammtypes.MsgServer // legacy gamm swap messages (C02 only)
 	q       pmclient.Querier
 	log     *[]rec
 }
@@ -600,6 +601,30 @@ func (w *world) exec(ctx sdk.Context, o *opOut) {
 				r, e := w.ms.SwapExactAmountIn(cc, m)
 				if e == nil {
 					res = r.TokenOutAmount
+				}
+				return e
+			})
+		case "gin":
+			m := &gammtypes.MsgSwapExactAmountIn{Sender: w.trader.String(), Routes: w.inRoute(o.Route), TokenIn: sdk.Coin{Denom: w.denoms[o.D], Amount: bi(o.Amt)}, TokenOutMinAmount: bi(o.Lim)}
+			if err := m.ValidateBasic(); err != nil {
+				return err
+			}
+			return apph.Atomic(ctx, func(cc sdk.Context) error {
+				r, e := w.gms.SwapExactAmountIn(cc, m)
+				if e == nil {
+					res = r.TokenOutAmount
+				}
+				return e
+			})
+		case "gout":
+			m := &gammtypes.MsgSwapExactAmountOut{Sender: w.trader.String(), Routes: w.outRoute(o.Route), TokenOut: sdk.Coin{Denom: w.denoms[o.D], Amount: bi(o.Amt)}, TokenInMaxAmount: bi(o.Lim)}
+			if err := m.ValidateBasic(); err != nil {
+				return err
+			}
+			return apph.Atomic(ctx, func(cc sdk.Context) error {
+				r, e := w.gms.SwapExactAmountOut(cc, m)
+				if e == nil {
+					res = r.TokenInAmount
 				}
 				return e
 			})
